@@ -145,3 +145,28 @@ pub fn toposort(nodes: &[u32], edges: &[(u32, u32)]) -> Result<Vec<u32>, Vec<u32
     }
     graph.topological_sort()
 }
+
+/// Like `toposort`, but also reports the iteration orders the sorter saw: the node set's order
+/// and each node's successor set's order (direct, and through the clone `out_edges` returns).
+pub fn toposort_trace(nodes: &[u32], edges: &[(u32, u32)])
+        -> (Vec<u32>, Vec<(u32, Vec<u32>, Vec<u32>)>, Result<Vec<u32>, Vec<u32>>) {
+    let mut graph: Graph<u32> = Graph::new();
+    for &n in nodes {
+        graph.add_node(n);
+    }
+    for &(a, b) in edges {
+        graph.insert(a, b);
+    }
+    let node_order: Vec<u32> = graph.nodes.iter().cloned().collect();
+    let mut succ = Vec::new();
+    for n in &node_order {
+        let direct: Vec<u32> = match graph.edges.get(n) {
+            Some(set) => set.iter().cloned().collect(),
+            None => Vec::new(),
+        };
+        let cloned: Vec<u32> = graph.out_edges(n).iter().cloned().collect();
+        succ.push((*n, direct, cloned));
+    }
+    let result = graph.topological_sort();
+    (node_order, succ, result)
+}
